@@ -121,7 +121,8 @@ def _parents(n):
 def _split_derived(A, f, expr, which):
     """expr denotes the namespace segments (`which`='ns') or the last segment ('last') of a name split on '::'."""
     e = subst_single_assign(A, f, expr)
-    t = src(e)
+    from .common import src_resolved
+    t = src_resolved(A, f, expr)      # intermediate locals (`parts = name.split('::')`) resolved recursively
     if which == 'ns' and "split('::')[:-1]" in t:
         return True
     if which == 'last' and "split('::')[-1]" in t:
@@ -451,6 +452,14 @@ def run(A, R: Report, thorough: bool):
                 tests.append((f_, n.test, n))
             elif isinstance(n, ast.comprehension):
                 tests += [(f_, i, n) for i in n.ifs]
+    from .common import src_resolved
+
+    def _resolved(f_, t):
+        try:
+            return ast.parse(src_resolved(A, f_, t), mode='eval').body
+        except SyntaxError:
+            return t
+    tests = tests + [(f_, _resolved(f_, t), n) for f_, t, n in tests]      # tests through named locals count like the expression itself
     has_abstract = any(any(isinstance(x, ast.Constant) and x.value == 'abstract' for x in ast.walk(t)) for _, t, _ in tests)
     has_excl = any(any(isinstance(x, ast.Compare) and len(x.ops) == 1 and isinstance(x.ops[0], (ast.In, ast.NotIn)) and isinstance(x.comparators[0], ast.Name) and x.comparators[0].id in exnames
                        for x in ast.walk(t)) for _, t, _ in tests)
@@ -462,9 +471,9 @@ def run(A, R: Report, thorough: bool):
             if isinstance(n, ast.If) and n.body and isinstance(n.body[-1], (ast.Continue, ast.Return)) and not n.orelse:
                 skips.append((f_, n))
     for f_, n in skips:
-        t = src(n.test)
-        ok = t == 'exclude' or any(isinstance(x, ast.Compare) and isinstance(x.ops[0], (ast.In, ast.NotIn)) and isinstance(x.comparators[0], ast.Name) and x.comparators[0].id in exnames for x in ast.walk(n.test)) \
-            or ("'abstract'" in t) or t.endswith('is None')
+        t = src_resolved(A, f_, n.test)
+        ok = t == 'exclude' or any(isinstance(x, ast.Compare) and isinstance(x.ops[0], (ast.In, ast.NotIn)) and isinstance(x.comparators[0], ast.Name) and x.comparators[0].id in exnames for x in list(ast.walk(n.test)) + list(ast.walk(_resolved(f_, n.test)))) \
+            or t == 'exclude' or ("'abstract'" in t) or t.endswith('is None') or src(n.test) == 'exclude'
         R.check(ok, 'R08.3', f'{f_.short}: skip `{t[:60]}`', key_of('skip', t), 'abstract / excluded / exclusion-pass skip',
                 f'a declared task class is skipped under `{t}`: the chain no longer contains exactly the declared, non-abstract, non-excluded tasks', where=where(f_, n))
     check_expand_tasks(A, R, 'R08.3')
